@@ -3,17 +3,13 @@ against the Lean model (parse, buildTopo, exportChunks + the cursor machine).
 
 Every call is first tried in a forked child, so a crash of the real code is an observation ("crash"), never a dead harness.
 Known findings (known_findings.json, status known) are reported with one KNOWN-FINDING line per class and do not fail
-the check: F34, F35 (round trip under the legacy export flags).  One input class is excluded behind a switch because the
-real code still aborts on it (reported, not yet fixed): x*y interleavings whose product of counts wraps to 0 modulo 2^64
-fail assert(nbs) (VERIF_INCLUDE_SYN_NBS=1)."""
+the check: F34, F35 (round trip under the legacy export flags).  No input class is excluded."""
 import os
 from eng_generic import DiffEngine
 from diffrun import compare_streams
 
 # model verdict -> (switch, description)
-KNOWN_CLASSES = {
-    "crash assert": ("VERIF_INCLUDE_SYN_NBS", "id=F68 x*y interleaving whose product of counts is 0 modulo 2^64 (e.g. indexes=1*65536:1*65536:1*65536:1*65536): assert(nbs) aborts in hwloc_synthetic_process_indexes (topology-synthetic.c:316)"),
-}
+KNOWN_CLASSES = {}      # no input class is excluded any more (F04, F67, F69 ... are fixed and are ordinary cases)
 KNOWN_TEXT = {
     "F34": "id=F34 hwloc_topology_export_synthetic(NO_EXTENDED_TYPES) writes caches as generic 'Cache:n', which hwloc_type_sscanf does not accept: the exported string cannot be re-imported (EINVAL)",
     "F35": "id=F35 under V1 / NO_EXTENDED_TYPES / IGNORE_MEMORY a Die or the Group holding NUMA nodes is exported as a plain 'Group:n'; on re-import the core merges it away when it has a single child: export/import/export is not a fixpoint",
